@@ -206,9 +206,10 @@ func (cr *concRun) run(c *harness.Case) {
 	startGate := make(chan struct{})
 	for ci := 0; ci < cfg.clients; ci++ {
 		wg.Add(1)
+		cseed := c.Rng.Int63() + int64(ci)
 		go func(ci int) {
 			defer wg.Done()
-			r := rand.New(rand.NewSource(c.Rng.Int63() + int64(ci)))
+			r := rand.New(rand.NewSource(cseed))
 			last := map[string]uint64{} // last revision this client saw per key
 			for k, vs := range cr.init.Keys {
 				if len(vs) > 0 && !vs[len(vs)-1].Del && r.Intn(2) == 0 {
